@@ -108,12 +108,15 @@ type Unit struct {
 	TS       uint32 `json:",omitempty"` // XID / rotate / misc event timestamp
 	Items    []Item `json:",omitempty"` // tx kinds; UAutoRows has exactly one IRows item with one rows event
 	Q        *Query `json:",omitempty"` // UDDL, UStmtDML, UUnknownStmt
-	NextFile string `json:",omitempty"` // URotate
-	SID      [16]byte
-	GNO      int64                 `json:",omitempty"`
-	Prev     []refenc.SIDIntervals `json:",omitempty"`
-	EvType   byte                  `json:",omitempty"` // UUnknownEvent
-	Body     []byte                `json:",omitempty"`
+	NextFile string `json:",omitempty"` // URotate, UFileEnd
+	// FlipChecksum: the next file is written with the other checksum setting (SET GLOBAL
+	// binlog_checksum rotates the log); only meaningful on URotate / UFileEnd
+	FlipChecksum bool `json:",omitempty"`
+	SID          [16]byte
+	GNO          int64                 `json:",omitempty"`
+	Prev         []refenc.SIDIntervals `json:",omitempty"`
+	EvType       byte                  `json:",omitempty"` // UUnknownEvent
+	Body         []byte                `json:",omitempty"`
 }
 
 // History is a complete logical binlog: configuration, tables and units.  The
@@ -148,6 +151,7 @@ type Ev struct {
 type Layout struct {
 	H         *History
 	Files     []string
+	CRC       []bool   // per file: events carry a CRC32
 	FDE       [][]byte // per file, as stored at offset 4
 	Events    []Ev
 	UnitStart []Pos // coordinates of each unit's first event
@@ -159,16 +163,19 @@ func (h *History) sizes() []byte {
 	return refenc.StdHeaderSizes(h.Cfg.NHeaderSizes, h.Cfg.TableIDBytes)
 }
 
-func (h *History) alg() byte {
-	if h.Cfg.Checksum {
+func algOf(crc bool) byte {
+	if crc {
 		return refenc.ChecksumCRC32
 	}
 	return refenc.ChecksumOff
 }
 
-// FDEBytes builds the file's format description event with the given log_pos.
-func (h *History) FDEBytes(logPos uint32) []byte {
-	body := refenc.FDEBody(4, h.Cfg.ServerVersion, h.Cfg.CreateTS, 19, h.sizes(), h.alg())
+// FDEBytes builds the first file's format description event with the given log_pos.
+func (h *History) FDEBytes(logPos uint32) []byte { return h.FDEBytesCRC(logPos, h.Cfg.Checksum) }
+
+// FDEBytesCRC builds a format description event announcing the given checksum setting.
+func (h *History) FDEBytesCRC(logPos uint32, crc bool) []byte {
+	body := refenc.FDEBody(4, h.Cfg.ServerVersion, h.Cfg.CreateTS, 19, h.sizes(), algOf(crc))
 	return refenc.BuildEvent(refenc.Header{Timestamp: h.Cfg.CreateTS, Type: refenc.EvFormatDesc, ServerID: h.Cfg.ServerID, LogPos: logPos}, body, true)
 }
 
@@ -283,7 +290,7 @@ func (h *History) RowsBody(r *RowsEv, last bool) []byte {
 
 // Lay lays the history out into events with exact offsets.
 func (h *History) Lay() (*Layout, error) {
-	l := &Layout{H: h, Files: []string{h.FirstFile}}
+	l := &Layout{H: h, Files: []string{h.FirstFile}, CRC: []bool{h.Cfg.Checksum}}
 	if h.Base < h.MinBase() {
 		return nil, fmt.Errorf("base %d below %d", h.Base, h.MinBase())
 	}
@@ -332,6 +339,16 @@ func (h *History) Lay() (*Layout, error) {
 		}
 		return nil
 	}
+	nextFile := func(u *Unit) {
+		if u.FlipChecksum {
+			crc = !crc
+		}
+		l.Files = append(l.Files, u.NextFile)
+		l.CRC = append(l.CRC, crc)
+		file++
+		l.FDE = append(l.FDE, h.FDEBytesCRC(uint32(4+h.FDESize()), crc))
+		off = 4 + h.FDESize()
+	}
 	for ui := range h.Units {
 		u := &h.Units[ui]
 		l.UnitStart = append(l.UnitStart, Pos{l.Files[file], off})
@@ -358,20 +375,14 @@ func (h *History) Lay() (*Layout, error) {
 		case URotate:
 			err = add(ui, u.TS, refenc.EvRotate, 0, refenc.RotateBody(4, u.NextFile), false)
 			if err == nil {
-				l.Files = append(l.Files, u.NextFile)
-				file++
-				l.FDE = append(l.FDE, h.FDEBytes(uint32(4+h.FDESize())))
-				off = 4 + h.FDESize()
+				nextFile(u)
 			}
 		case UFileEnd:
 			if u.EvType == refenc.EvStop {
 				err = add(ui, u.TS, refenc.EvStop, 0, nil, false)
 			}
 			if err == nil {
-				l.Files = append(l.Files, u.NextFile)
-				file++
-				l.FDE = append(l.FDE, h.FDEBytes(uint32(4+h.FDESize())))
-				off = 4 + h.FDESize()
+				nextFile(u)
 			}
 		case UGTID:
 			err = add(ui, u.TS, refenc.EvGTID, 0, refenc.GTIDBody(1, u.SID, u.GNO, h.Cfg.GTID57, int64(ui), int64(ui)+1), false)
@@ -396,8 +407,14 @@ func (h *History) Lay() (*Layout, error) {
 
 // ArtificialRotate is the fake ROTATE a master sends first.
 func (h *History) ArtificialRotate(file string, pos int64) []byte {
+	return h.ArtificialRotateCRC(file, pos, h.Cfg.Checksum)
+}
+
+// ArtificialRotateCRC: the fake ROTATE carries a checksum according to the setting the dump
+// thread has seen last, i.e. the PREVIOUS file's (for the very first one: the requested file's).
+func (h *History) ArtificialRotateCRC(file string, pos int64, crc bool) []byte {
 	return refenc.BuildEvent(refenc.Header{Timestamp: 0, Type: refenc.EvRotate, ServerID: h.Cfg.ServerID, LogPos: 0, Flags: refenc.FlagArtificial},
-		refenc.RotateBody(uint64(pos), file), h.Cfg.Checksum)
+		refenc.RotateBody(uint64(pos), file), crc)
 }
 
 // FileIndex finds a file by name.
@@ -448,6 +465,29 @@ func (l *Layout) EventIndexAt(file int, off int64) (int, bool) {
 	return 0, false
 }
 
+// ServedFiles is Served plus, for every payload, the index of the file whose format
+// description is in force once that payload has been processed.
+func (l *Layout) ServedFiles(fileName string, off int64) (payloads [][]byte, evIdx []int, files []int, ok bool) {
+	payloads, evIdx, ok = l.Served(fileName, off)
+	if !ok {
+		return
+	}
+	cur := l.FileIndex(fileName)
+	artificial := 0
+	for i := range payloads {
+		if evIdx[i] < 0 {
+			artificial++
+			// announcements come in pairs (artificial rotate, format description); the format
+			// changes with the second element of every pair after the first pair
+			if artificial%2 == 0 && artificial > 2 {
+				cur++
+			}
+		}
+		files = append(files, cur)
+	}
+	return
+}
+
 // Served returns the event payloads (without the leading 0x00 packet byte) a
 // master sends for a dump request at (file, off), with, for each, the index of
 // the laid-out event it carries (-1 for artificial rotate / format description).
@@ -461,18 +501,18 @@ func (l *Layout) Served(fileName string, off int64) (payloads [][]byte, evIdx []
 		return nil, nil, false
 	}
 	h := l.H
-	payloads = append(payloads, h.ArtificialRotate(fileName, off))
+	payloads = append(payloads, h.ArtificialRotateCRC(fileName, off, l.CRC[file]))
 	evIdx = append(evIdx, -1)
 	fde := l.FDE[file]
 	if off > 4 {
-		fde = h.FDEBytes(0)
+		fde = h.FDEBytesCRC(0, l.CRC[file])
 	}
 	payloads = append(payloads, fde)
 	evIdx = append(evIdx, -1)
 	announce := func(upTo int) {
 		for file < upTo {
 			file++
-			payloads = append(payloads, h.ArtificialRotate(l.Files[file], 4), l.FDE[file])
+			payloads = append(payloads, h.ArtificialRotateCRC(l.Files[file], 4, l.CRC[file-1]), l.FDE[file])
 			evIdx = append(evIdx, -1, -1)
 		}
 	}
